@@ -48,11 +48,17 @@ pub fn unrle(d: &[(u8, u32)]) -> Vec<u8> {
     out
 }
 
-pub fn profile_name() -> &'static str {
+pub fn profile_name() -> String {
+    // the driver names the build variant (e.g. "release+sync" for the auto-instrumented copy)
+    if let Ok(t) = std::env::var("A5SIM_PROFILE_TAG") {
+        if !t.is_empty() {
+            return t;
+        }
+    }
     if cfg!(debug_assertions) {
-        "debug"
+        "debug".to_string()
     } else {
-        "release"
+        "release".to_string()
     }
 }
 
